@@ -103,7 +103,7 @@ fn id_in_u64(v: &Val) -> bool {
 
 fn class_of_id(i: &Int) -> &'static str {
     if i.neg {
-        "negative"
+        if i.mag.len() > 8 || (i.mag.len() == 8 && i.mag[7] >= 0x80 && !(i.mag[7] == 0x80 && i.mag[..7].iter().all(|b| *b == 0))) { "negative-beyond-i64" } else { "negative" }
     } else if i.mag.len() > 8 {
         ">=2^64"
     } else if i.mag.len() == 8 && i.mag[7] >= 0x80 {
@@ -350,6 +350,9 @@ pub fn run(ctx: &Ctx) {
     let ids: Vec<Int> = vec![
         Int::from_i128(0), Int::from_i128(1), Int::from_i128((1 << 31) - 1), Int::from_i128(1 << 31), Int::from_i128((1i128 << 63) - 1),
         Int::from_i128(1i128 << 63), Int::from_i128((1i128 << 64) - 1), Int::from_i128(1i128 << 64), Int::from_i128(-1), Int::from_i128(1 << 40),
+        // negative ids of every width (none is an id), and ids just past 64 bits
+        Int::from_i128(-(1i128 << 31)), Int::from_i128(-(1i128 << 63) + 1), Int::from_i128(-(1i128 << 63)), Int::from_i128(-(1i128 << 63) - 1), Int::from_i128(-(1i128 << 64) + 1),
+        Int::from_i128(-(1i128 << 64)), Int::from_i128(-(1i128 << 64) - 1), Int::from_i128(-(1i128 << 100)), Int::from_i128((1i128 << 64) + 1), Int::from_i128(1i128 << 100),
     ];
     for tag in 0..=255i64 {
         for arity in 1..=10usize {
